@@ -125,7 +125,11 @@ TABLE: list[tuple[str, str, bool, str, list[F]]] = [
     # an Any-typed property holding (mutable) containers the library must never write to (C10 only)
     ("AnyBox", "Expr", False, "", [F("meta", "Any", "prop", "anybox", "None")]),
     # field names that are parameter names inside the library
-    ("Deco", "Expr", False, "", [F("node", "Expr | None", "opt", "any", "None"), F("value", "tuple[Expr, ...]", "tuple", "any", "()"), F("other", "str", "prop", "str", '""')]),
+    ("Deco", "Expr", False, "", [F("node", "Expr | None", "opt", "any", "None"), F("value", "tuple[Expr, ...]", "tuple", "any", "()"), F("other", "str", "prop", "str", '""'), F("meta", "Any", "prop", "anyjson", 'field(default=None, compare=False)', compare=False)]),
+    # dialect-sensitive types (Path) that occur only WRAPPED: no field of the class is annotated exactly Path
+    ("Paths", "Expr", False, "", [F("po", "Path | None", "prop", "optpath", "None"), F("tp", "tuple[Path, ...]", "prop", "tpath", "()")]),
+    # child annotations that keep INNER quotes although the whole module has postponed annotations
+    ("QSeq", "Expr", False, "", [F("items", 'tuple["Expr", ...]', "tuple", "any", "()"), F("opt", 'Optional["Expr"]', "opt", "any", "None")]),
     # a class defined inside a function (__qualname__ != __name__)
     ("LocalLeaf", "Expr", False, "", [F("a", "str", "prop", "str", '""')]),
     # a bookkeeping field that differs between otherwise content-equal nodes
@@ -169,7 +173,7 @@ from __future__ import annotations
 import enum
 from dataclasses import dataclass, field
 from pathlib import Path
-from typing import Literal, Any, NewType, ClassVar
+from typing import Literal, Any, NewType, ClassVar, Optional
 from mashumaro.types import SerializableType
 
 UserId = NewType("UserId", str)
@@ -315,8 +319,8 @@ CHILD_FIELDS: dict[str, list[F]] = _Tab({n: [f for f in fs if f.kind != "prop"] 
 PROP_FIELDS: dict[str, list[F]] = _Tab({n: [f for f in fs if f.kind == "prop"] for n, fs in FIELDS.items()})
 
 NODE_CLASSES = [n for n in _OWN if n != "Expr"]
-LEAF_CLASSES = ["LeafA", "LeafB", "LeafA2", "Meta", "Vals", "FS", "Carrier", "Serial", "Upper", "Lit", "Located", "Typed", "Dyn", "CaseMix", "Both", "FS2", "EnumBag", "AnyBox", "LocalLeaf", "Hook"]
-INNER_CLASSES = ["Pair", "Seq", "Fixed", "Mixed", "Falsy", "SeqPlus", "Loop", "IterBlock", "IterBlock2", "Deco"]
+LEAF_CLASSES = ["LeafA", "LeafB", "LeafA2", "Meta", "Vals", "FS", "Carrier", "Serial", "Upper", "Lit", "Located", "Typed", "Dyn", "CaseMix", "Both", "FS2", "EnumBag", "AnyBox", "LocalLeaf", "Hook", "Paths"]
+INNER_CLASSES = ["Pair", "Seq", "Fixed", "Mixed", "Falsy", "SeqPlus", "Loop", "IterBlock", "IterBlock2", "Deco", "QSeq"]
 
 def redefine_dyn(keep: bool = False):
     """Define `Dyn` again in the same module: first an OLDER version of the class (one field less), which is
@@ -408,6 +412,7 @@ ORIGINS["m:ab"] = MultiOrigin([ORIGINS["c:a:0-5"], ORIGINS["x:b:/r/t"]])
 # a multi-origin over two equal but DISTINCT source objects (the same unit opened twice)
 _SRC_A2 = MemoryTextSource("alpha beta gamma delta", source_uri="mem:a")
 ORIGINS["m:a+a2"] = MultiOrigin([ORIGINS["c:a:0-5"], CodeOrigin(_SRC_A2, get_code_range(11, 1, 11, 16, 1, 16))])
+ORIGINS["m:ba"] = MultiOrigin([ORIGINS["c:a:6-10"], ORIGINS["c:a:0-5"]])  # the parts of m:aa in the other order
 ORIGIN_KEYS = list(ORIGINS)
 # unequal origins that share one fqn (fqn = <source uri>::<start index>-<end index>), and an entire-source position:
 # only used where ids are not judged by their origin (C04, C16)
@@ -427,7 +432,8 @@ from pyoak.origin import FileSource, TextFileSource, ZippedFileSource, get_xml_o
 ORIGINS["x:f:/r"] = get_xml_origin(Path("data/in.xml"), "/r")
 ORIGINS["c:tf:0-3"] = CodeOrigin(TextFileSource(Path("src/a.txt")), get_code_range(0, 1, 0, 3, 1, 3))
 ORIGINS["c:zf:1-2"] = CodeOrigin(ZippedFileSource(Path("arch/all.zip"), Path("inner/b.txt")), get_code_range(1, 1, 1, 2, 1, 2))
-EXTRA_ORIGIN_KEYS = ["c:a:0-0", "c:a:0-5@l2", "e:a", "ss:empty", "x:f:/r", "c:tf:0-3", "c:zf:1-2"]
+ORIGINS["x:f..:/r"] = get_xml_origin(Path("data/../in2.xml"), "/r/t")
+EXTRA_ORIGIN_KEYS = ["c:a:0-0", "c:a:0-5@l2", "e:a", "ss:empty", "x:f:/r", "c:tf:0-3", "c:zf:1-2", "x:f..:/r"]
 
 # ---- values -----------------------------------------------------------------------------------------
 from pathlib import Path  # noqa: E402
@@ -469,7 +475,7 @@ INT_POOL = [0, 1, -1, 2, 7, 2**62, -(2**63), 10, 12]
 FLOAT_POOL = [0.5, 0.0, 1.0, 1e300, 3.14, -2.5e-7, 1.0e16]
 BOOL_POOL = [True, False]
 OPTINT_POOL = [None, 0, 1, 5]
-PATH_POOL = ["a/b", "a", "/abs/x.txt", "a b/c"]
+PATH_POOL = ["a/b", "a", "/abs/x.txt", "a b/c", "a/../b", "../x/y.txt"]
 LIT_POOL = ["x", "y"]
 TINT_POOL = [[], [0], [1, 2], [2, 1], [1, 2, 3], [0, 0]]
 TSI_POOL = [["k", 1], ["k", 2], ["", 0], ["1", 1]]
@@ -514,6 +520,9 @@ def pool_for(vt: str) -> list[Any]:
         "eset": EBAG_POOL,
         "kind": ["NUM", "TXT"],
         "anybox": ANYBOX_POOL,
+        "anyjson": [None, 1, "s", [1, 2], ["a"], {"k": [1]}, []],
+        "optpath": [None, "a/b", "a/../b"],
+        "tpath": [[], ["a"], ["a/b", "../x/y.txt"]],
     }[vt]
 
 
@@ -588,6 +597,14 @@ def decode(vt: str, j: Any) -> Any:
         return Kind[j]
     if vt == "anybox":
         return _anybox(j)
+    if vt == "anyjson":
+        import copy as _copy
+
+        return _copy.deepcopy(j)
+    if vt == "optpath":
+        return None if j is None else Path(j)
+    if vt == "tpath":
+        return tuple(Path(x) for x in j)
     if vt == "fs2":
         out: frozenset = frozenset()
         for inner in j:  # built by successive unions, in the order given
@@ -631,6 +648,12 @@ def encode(vt: str, v: Any) -> Any:
         return v.name
     if vt == "anybox":
         return _anybox_enc(v)
+    if vt == "anyjson":
+        return v
+    if vt == "optpath":
+        return None if v is None else v.as_posix()
+    if vt == "tpath":
+        return [x.as_posix() for x in v]
     raise KeyError(vt)
 
 
